@@ -149,7 +149,9 @@ def run(tier, replay=None):
                 h.insert(1, "bankdata " + bank.hex())
             hs.append(h)
     ops = [o for h in hs for o in h]
-    impl, _ = common.run_impl("api", "\n".join(ops) + "\n", stateless=True, timeout=1800)
+    # one process for all histories; a call that does not return is a finding, not something to wait half an hour for
+    # (the unchanged tree needs a few seconds in the quick tier, about two minutes in the thorough tier)
+    impl, _ = common.run_impl("api", "\n".join(ops) + "\n", stateless=True, timeout=180 if tier == "quick" else 1200)
     pos = 0
     nfail = 0
     used = collections.Counter()
